@@ -453,8 +453,14 @@ def evaluate_payload_template(input, context, template):
                     "States.ArrayUnique failed, arg[0] is not an array."
                 )
 
-            # Use set to get unique values from input then use list to convert back
-            return list(set(input_array))
+            # Keep the first occurrence of each value, in order. (A set gives an
+            # order that depends on the process hash seed, can't hold arrays or
+            # objects, and merges 1 with true.)
+            unique = []
+            for item in input_array:
+                if not any(json_equal(item, u) for u in unique):
+                    unique.append(item)
+            return unique
 
         def asl_intrinsic_Base64Encode(args):
             if len(args) != 1:
